@@ -80,7 +80,7 @@ SetUpdate(S) ==
 \* broadcastSignature: sign, remember the unsigned VAA with the set in force, loop the signature back.
 Sign(d, body, tx) ==
     /\ agg' = Put(agg, d, [EntryOf(d) EXCEPT !.our = body, !.snap = gs, !.tx = tx])
-    /\ out' = {[kind |-> "obs", d |-> d, signer |-> Self, resend |-> FALSE]}
+    /\ out' = {[kind |-> "obs", d |-> d, signer |-> Self, resend |-> FALSE, tx |-> tx]}
     /\ loop' = Put(loop, d, Count(loop, d) + 1)
     /\ observed' = observed \cup {d}
     /\ UNCHANGED <<gs, db, now, learned>>
@@ -88,11 +88,18 @@ Sign(d, body, tx) ==
 Ignore == out' = {} /\ UNCHANGED core
 
 \* case k := <-p.lockC.   m = [d, id, gov, chain, tx, empty]
-LocalMessage(m) ==
-    IF gs = Nil \/ m.gov THEN Ignore          \* no set yet; governance emitter is never signed
-    ELSE \/ (m.id \in DOMAIN db /\ Ignore)    \* "late observation" rule: may be ignored once a VAA is stored
-         \/ (m.empty /\ Ignore)               \* an empty payload may be dropped (it can never be decoded again)
-         \/ Sign(m.d, [id |-> m.id, setIdx |-> gs.idx, chain |-> m.chain, src |-> "chain"], m.tx)
+\* The node must ignore the message when it has no guardian set yet or when the message names the
+\* governance emitter (never signed); it may ignore it when a VAA for the message id is already stored
+\* ("late observation" rule) or when the payload is empty (such a VAA could never be decoded again).
+MustIgnore(m) == gs = Nil \/ m.gov
+MayIgnore(m)  == MustIgnore(m) \/ m.id \in DOMAIN db \/ m.empty
+
+LocalMessageChoice(m, signs) ==
+    IF signs
+    THEN ~MustIgnore(m) /\ Sign(m.d, [id |-> m.id, setIdx |-> gs.idx, chain |-> m.chain, src |-> "chain"], m.tx)
+    ELSE MayIgnore(m) /\ Ignore
+
+LocalMessage(m) == \E signs \in BOOLEAN : LocalMessageChoice(m, signs)
 
 \* case v := <-p.injectC.   v = [d, id, setIdx, chain]
 Inject(v) == Sign(v.d, [id |-> v.id, setIdx |-> v.setIdx, chain |-> v.chain, src |-> "inject"], Nil)
@@ -144,13 +151,18 @@ InboundAccept(w) ==
     /\ VerifyStrict(w.sigs, gs.keys)
     /\ w.id \notin DOMAIN db
 
-InboundVAA(w) ==
+\* The properties only forbid storing what fails the check; they do not oblige the node to keep
+\* every valid copy it is shown, so `stores` is the implementation's choice when acceptance is allowed.
+InboundVAAChoice(w, stores) ==
     /\ out' = {}
     /\ UNCHANGED <<gs, agg, loop, now, learned, observed>>
-    /\ IF InboundAccept(w)
-       THEN db' = Put(db, w.id, [d |-> w.d, id |-> w.id, setIdx |-> w.setIdx, sigs |-> w.sigs,
-                                 by |-> gs, via |-> "peer"])
+    /\ IF stores
+       THEN /\ InboundAccept(w)
+            /\ db' = Put(db, w.id, [d |-> w.d, id |-> w.id, setIdx |-> w.setIdx, sigs |-> w.sigs,
+                                    by |-> gs, via |-> "peer"])
        ELSE UNCHANGED db
+
+InboundVAA(w) == \E stores \in BOOLEAN : InboundVAAChoice(w, stores)
 
 Advance(k) ==
     /\ now' = now + k
@@ -182,7 +194,7 @@ CleanupTick(L) ==
                        CASE Decision(d, L) = "settle" -> [agg[d] EXCEPT !.settled = TRUE]
                          [] Decision(d, L) = "retry"  -> [agg[d] EXCEPT !.retry = @ + 1, !.lastRetry = now]
                          [] OTHER -> agg[d]]
-          /\ out' = {[kind |-> "obs", d |-> d, signer |-> Self, resend |-> TRUE] : d \in rt}
+          /\ out' = {[kind |-> "obs", d |-> d, signer |-> Self, resend |-> TRUE, tx |-> agg[d].tx] : d \in rt}
                     \cup {[kind |-> "req", chain |-> agg[d].our.chain, tx |-> agg[d].tx] : d \in rt}
     /\ UNCHANGED <<gs, db, loop, now, learned, observed>>
 
@@ -198,20 +210,27 @@ VaaOK(v) ==
     /\ (v.via = "chain" => v.setIdx = v.by.idx)
 
 StoredValid    == \A id \in DOMAIN db : VaaOK(db[id]) /\ db[id].id = id
-BroadcastValid == [][\A o \in out' : o.kind = "vaa" => VaaOK(o.vaa)' /\ db'[o.vaa.id] = o.vaa]_vars
+BroadcastValidStep ==
+    \A o \in out' : o.kind = "vaa" => VaaOK(o.vaa)' /\ db'[o.vaa.id] = o.vaa
+BroadcastValid == [][BroadcastValidStep]_vars
 
 \* A stored VAA changes only together with the node's own publication of that message.
-NoPeerOverwrite ==
-    [][\A id \in DOMAIN db : (id \in DOMAIN db' /\ db'[id] # db[id]) =>
-           \E o \in out' : o.kind = "vaa" /\ o.vaa.id = id]_vars
-StoreNeverShrinks == [][DOMAIN db \subseteq DOMAIN db']_vars
+NoPeerOverwriteStep ==
+    \A id \in DOMAIN db : (id \in DOMAIN db' /\ db'[id] # db[id]) =>
+           \E o \in out' : o.kind = "vaa" /\ o.vaa.id = id
+NoPeerOverwrite == [][NoPeerOverwriteStep]_vars
+
+StoreNeverShrinksStep ==
+    DOMAIN db \subseteq DOMAIN db'
+StoreNeverShrinks == [][StoreNeverShrinksStep]_vars
 
 \* C02.
-NoPublishWithoutObservation ==
-    [][\A o \in out' : o.kind = "vaa" =>
+NoPublishWithoutObservationStep ==
+    \A o \in out' : o.kind = "vaa" =>
           /\ o.vaa.d \in observed
           /\ o.vaa.d \in DOMAIN agg' /\ agg'[o.vaa.d].our # Nil
-          /\ o.vaa.id = agg'[o.vaa.d].our.id /\ o.vaa.setIdx = agg'[o.vaa.d].our.setIdx]_vars
+          /\ o.vaa.id = agg'[o.vaa.d].our.id /\ o.vaa.setIdx = agg'[o.vaa.d].our.setIdx
+NoPublishWithoutObservation == [][NoPublishWithoutObservationStep]_vars
 
 HaveQuorum(e) ==
     /\ e.our # Nil /\ e.snap # Nil
@@ -224,34 +243,40 @@ PublishAsSoonAs ==
 SubmittedMeansStored ==
     \A d \in DOMAIN agg : agg[d].submitted => agg[d].our # Nil /\ agg[d].our.id \in DOMAIN db
 
-AtMostOncePerLifetime ==
-    [][\A o \in out' : o.kind = "vaa" =>
-          (o.vaa.d \notin DOMAIN agg \/ ~agg[o.vaa.d].submitted) /\ agg'[o.vaa.d].submitted]_vars
+AtMostOncePerLifetimeStep ==
+    \A o \in out' : o.kind = "vaa" =>
+          (o.vaa.d \notin DOMAIN agg \/ ~agg[o.vaa.d].submitted) /\ agg'[o.vaa.d].submitted
+AtMostOncePerLifetime == [][AtMostOncePerLifetimeStep]_vars
 
-SubmittedSticky ==
-    [][\A d \in DOMAIN agg \cap DOMAIN agg' : agg[d].submitted => agg'[d].submitted]_vars
+SubmittedStickyStep ==
+    \A d \in DOMAIN agg \cap DOMAIN agg' : agg[d].submitted => agg'[d].submitted
+SubmittedSticky == [][SubmittedStickyStep]_vars
 
 \* C03 (aggregation part): an observation that is not validly signed by a member changes nothing.
 \* (Stated on the action itself in MC_Processor: InvalidObservationNoEffect.)
 
 \* C14.
-NoEarlyDiscard ==
-    [][\A d \in DOMAIN agg \ DOMAIN agg' :
+NoEarlyDiscardStep ==
+    \A d \in DOMAIN agg \ DOMAIN agg' :
           (agg[d].our # Nil /\ ~agg[d].submitted) =>
-              (agg[d].retry >= RetryBudget \/ agg[d].our.id \in DOMAIN db)]_vars
+              (agg[d].retry >= RetryBudget \/ agg[d].our.id \in DOMAIN db)
+NoEarlyDiscard == [][NoEarlyDiscardStep]_vars
 
-RetryCadence ==
-    [][\A d \in DOMAIN agg \cap DOMAIN agg' :
+RetryCadenceStep ==
+    \A d \in DOMAIN agg \cap DOMAIN agg' :
           agg'[d].retry # agg[d].retry =>
               /\ agg'[d].retry = agg[d].retry + 1
               /\ agg[d].our # Nil /\ ~agg[d].submitted
               /\ Age(agg[d]) >= RetryT /\ RetryDue(agg[d])
-              /\ [kind |-> "obs", d |-> d, signer |-> Self, resend |-> TRUE] \in out'
-              /\ [kind |-> "req", chain |-> agg[d].our.chain, tx |-> agg[d].tx] \in out']_vars
+              /\ [kind |-> "obs", d |-> d, signer |-> Self, resend |-> TRUE, tx |-> agg[d].tx] \in out'
+              /\ [kind |-> "req", chain |-> agg[d].our.chain, tx |-> agg[d].tx] \in out'
+RetryCadence == [][RetryCadenceStep]_vars
 
 \* Nothing but a retry re-sends or requests anything.
-RetryOnlyWhenDue ==
-    [][\A o \in out' : (o.kind = "req" \/ (o.kind = "obs" /\ o.resend)) =>
+RetryOnlyWhenDueStep ==
+    \A o \in out' : (o.kind = "req" \/ (o.kind = "obs" /\ o.resend)) =>
           \E d \in DOMAIN agg \cap DOMAIN agg' : agg'[d].retry = agg[d].retry + 1
-               /\ (o.kind = "obs" => o.d = d)]_vars
+               /\ (o.kind = "obs" => o.d = d)
+RetryOnlyWhenDue == [][RetryOnlyWhenDueStep]_vars
+
 =============================================================================
